@@ -377,6 +377,10 @@ def build_op(spec):
         lam = torch.stack([spectrum(fam, n, kappa, g) * scale for _ in range(B)]).reshape(*batch, n)
         op = O.DiagLinearOperator(lam)
         K = torch.diag_embed(lam)
+    elif kind == "constdiag":
+        c = (0.5 + torch.rand(*batch, 1, generator=g, dtype=F64)) * scale
+        op = O.ConstantDiagLinearOperator(c, diag_shape=n)
+        K = torch.diag_embed(c.expand(*batch, n))
     elif kind == "identity":
         op = O.IdentityLinearOperator(n, batch_shape=torch.Size(batch), dtype=F64)
         K = torch.eye(n, dtype=F64).expand(*batch, n, n).clone()
@@ -390,10 +394,13 @@ def build_op(spec):
     else:
         raise ValueError(kind)
     rb = batch if spec.get("rhs_batch", "full") == "full" else ()
+    if spec.get("data_batch") is not None:          # explicit batch shape of rhs (and lhs): more / fewer / singleton dims
+        rb = tuple(spec["data_batch"])
     rhs = torch.randn(*rb, n, t, generator=g, dtype=F64)
     lhs = None
     if spec.get("lhs"):
-        lhs = torch.randn(*rb, int(spec["lhs"]), n, generator=g, dtype=F64)
+        lb = tuple(spec["lhs_batch"]) if spec.get("lhs_batch") is not None else rb
+        lhs = torch.randn(*lb, int(spec["lhs"]), n, generator=g, dtype=F64)
     return op, K, rhs, lhs
 
 
